@@ -360,6 +360,34 @@ theorem pool_clone_refines (g : Nat → Nat) (gb : Nat → Nat → Nat) {dst : M
   rw [h4.2]
   exact resetTo_of_sorted ((mapVal_sorted _).mpr hs)
 
+theorem selectOwn_range {β : Type} (l : List β) : ∀ n, n ≤ l.length →
+    Spec.SortedMultiset.selectOwn l (List.range n) = l.take n := by
+  intro n
+  induction n with
+  | zero => intro _; simp [Spec.SortedMultiset.selectOwn]
+  | succ n ih =>
+    intro h
+    have hn : n < l.length := by omega
+    unfold Spec.SortedMultiset.selectOwn at ih ⊢
+    rw [List.range_succ, List.filterMap_append, ih (by omega)]
+    simp only [List.filterMap_cons, List.filterMap_nil, Nat.mod_eq_of_lt hn, List.getElem?_eq_getElem hn]
+    rw [List.take_add_one, List.getElem?_eq_getElem hn]; rfl
+
+/-- `ResetOptionsTo` fed from the message's **own** options (a subset, permutation or repetition of `Options()`,
+whose values are views into the message's own value buffer — the aliasing case): the result is the stable sort of
+the selected options with their values byte-exact, because the copies are written at/above the cursor and every
+source lies below it; in particular resetting a message to its own `Options()` is the identity. -/
+theorem pool_resetSelf_refines (g : Nat → Nat) (gb : Nat → Nat → Nat) {r : Msg} (hinv : MsgInv r) (idxs : List Nat) :
+    ∃ r', r.step g gb (.resetSelf idxs) = .ok r' ∧ MsgInv r' ∧
+      items r'.mem r'.opts = resetTo (Spec.SortedMultiset.selectOwn (items r.mem r.opts) idxs) ∧
+      (idxs = List.range (items r.mem r.opts).length → items r'.mem r'.opts = items r.mem r.opts) := by
+  obtain ⟨r', h1, h2, h3, _⟩ := step_spec g gb hinv (.resetSelf idxs)
+  refine ⟨r', h1, h2, h3, fun hi => ?_⟩
+  rw [h3, hi]
+  show resetTo (Spec.SortedMultiset.selectOwn _ _) = _
+  rw [selectOwn_range _ _ (Nat.le_refl _), List.take_length]
+  exact resetTo_of_sorted ((mapVal_sorted _).mpr hinv.sorted)
+
 /-! ## Non-vacuity: concrete instances of the hypotheses and of each conclusion -/
 
 section Examples
@@ -400,6 +428,12 @@ example : ((Msg.run exG exGb (Msg.new [] 0)
     = .ok [(11, [120]), (12, [50])] := by decide
 example : [Msg.Op.setPath [47, 97, 47, 98], .addBytes 15 [113], .setPath [47, 120], .setUint32 12 50, .remove 15].foldl specStep []
     = [(11, [120]), (12, [50])] := by decide
+-- values set in non-ascending number order (query before path), then the message is reset to its own options
+-- (identity) and to a reordered subset of them
+set_option maxRecDepth 100000 in
+example : ((Msg.run exG exGb (Msg.new [] 2)
+      [.addBytes 15 [105, 102], .setUint32 6 42, .setPath [47, 111, 47, 114], .resetSelf [0, 1, 2, 3], .resetSelf [3, 0]]).map Msg.items)
+    = .ok [(6, [42]), (15, [105, 102])] := by decide
 end Examples
 
 end CoapVerif.Props.C15
@@ -433,4 +467,6 @@ open CoapVerif.Props.C15
 #print axioms resetOptionsTo_refused_untouched
 #print axioms clone_refines
 #print axioms pool_clone_refines
+#print axioms selectOwn_range
+#print axioms pool_resetSelf_refines
 end Audit
